@@ -162,3 +162,39 @@ safe TotalSupply [C03]
 safe BalanceOf [C03]
 safe Version [C03]
 @*/
+
+/*@
+module upgrade
+props C16
+use common core
+dialect neovm
+
+// C16: an upgrade runs only from a supported older version and preserves what the read API shows.
+pure lastarg(d Any) Int = asint(aslist(d)[len(aslist(d)) - 1])
+
+// the 0.20 migration moves every 20-byte key k to "a"++k with the same value and touches nothing else:
+// balanceOf(k) read through the new layout equals the old stored value, the supply key is untouched
+func switchToAccPrefixes(ctx)
+  ensures [C16] forall a Bytes {store.opt("a" ++ a)} :: len(a) == 20 && old(store).has(a) ==> store.opt("a" ++ a) == old(store).opt(a)
+  ensures [C16] forall a Bytes {store.opt(a)} :: len(a) == 20 ==> !store.has(a)
+  ensures [C16] forall k Bytes {store.opt(k)} :: len(k) != 20 && len(k) != 21 ==> store.opt(k) == old(store).opt(k)
+  ensures notifs == old(notifs)
+  loop 0
+    invariant forall j Int {$it.key(j)} :: 0 <= j && j < $it.pos && len($it.key(j)) == 20
+                ==> !store.has($it.key(j)) && store.opt("a" ++ $it.key(j)) == old(store).opt($it.key(j))
+    invariant forall k Bytes {store.opt(k)} :: len(k) == 20 && old(store).has(k) && $it.idx(k) >= $it.pos ==> store.opt(k) == old(store).opt(k)
+    invariant forall k Bytes {store.opt(k)} :: len(k) == 20 && !old(store).has(k) ==> !store.has(k)
+    invariant forall k Bytes {store.opt(k)} :: len(k) != 20 && len(k) != 21 ==> store.opt(k) == old(store).opt(k)
+    invariant notifs == old(notifs)
+
+func switchToNotary(ctx)
+  trusted
+  ensures forall k Bytes {store.opt(k)} :: k != "notary" && k != "netmapScriptHash" && k != "containerScriptHash" && k != "ballots" ==> store.opt(k) == old(store).opt(k)
+  ensures notifs == old(notifs)
+
+func _deploy(data, isUpdate)
+  // version window: oldest supported <= deployed version < new version
+  ensures [C16] isUpdate ==> PrevVersion <= lastarg(data) && lastarg(data) < Version
+  // the supply counter survives every upgrade path
+  ensures [C16] isUpdate ==> store.opt("MainnetGAS") == old(store).opt("MainnetGAS")
+@*/
